@@ -131,6 +131,18 @@ CHECKS["C01"] = dict(
    note=TB + "Header parsing, the geometry attributes, s390, split-file selection, the real zlib/snappy/zstd decompressors and the LKCD three-level block "
         "table (abstracted to a finite map) are checked differentially only; tools/dumpgen.py writers are trusted generators.",
    technique="Lean 4 proof (lookup/zero-fill/RLE) + exhaustive differential reads of generated dumps", design="§6 C01")
+CHECKS["C18"] = dict(
+   text="Partial by design: proved for a handful of constructors/unwinders, enumerated for the rest. Lean: a ledger model of alloc_ctx, kdump_new, "
+        "attr_dict_new, xlat_new, xlat_clone, kdump_clone and add_pfn_region with f_oom_safe-style theorems over ALL fault points and sizes (failing the n-th "
+        "allocation => failure returned, nothing leaked, no lock held, pre-existing objects unchanged); the translation-map atomicity and the error-string "
+        "degradation are the proved C10 (set_nomem, history) and C16 (vadd_trunc, vadd_inbounds) theorems. Tie and property evaluation: systematic fault "
+        "enumeration on the real code — 33 scenarios (create, clone x flags, open ELF/diskdump/flattened, reads in three address spaces, translation set-up, "
+        "attributes, addrxlat_sys_os_init, free), every allocation index 1..N+1 failed in a forked child, judged on status, crash/sanitizer report, locks "
+        "held at return (pthread interposition ledger), leaks after freeing survivors, follow-up calls on survivors; the model's alloc/free/lock trace is "
+        "compared with the intercepted real trace for every n.",
+   note=TB + "Allocations inside zlib/zstd/snappy and mmap are not failed; single-threaded; LKCD/SADUMP open findings are recorded in KNOWN_FINDINGS "
+        "(they need the repository's own tests/out dumps to show up).",
+   technique="Lean 4 proof (ledger model, all fault points) + systematic n-th-allocation fault enumeration", design="§6 C18")
 NOT_YET = {}
 
 def main():
